@@ -16,6 +16,27 @@ Proof.
   destruct H as [H|H]; [discriminate|]. apply IH; exact H.
 Qed.
 
+(* validator_of never fails on a type NAME: whatever is declared, a key of VALIDATOR is
+   selected as long as the key string exists *)
+Lemma resolve_total keys t : mem_str T_STRING keys = true -> exists k, resolve keys t = Some k /\ In k keys.
+Proof.
+  intros Hs. unfold resolve. rewrite Hs.
+  assert (Hin : In T_STRING keys) by (apply mem_str_In; exact Hs).
+  destruct t as [|c t']; [exists T_STRING; split; [reflexivity|exact Hin]|].
+  destruct (mem_str (c :: t') keys) eqn:E1; [exists (c :: t'); split; [reflexivity|apply mem_str_In; exact E1]|].
+  destruct (mem_str (local_name (c :: t')) keys) eqn:E2; [eexists; split; [reflexivity|apply mem_str_In; exact E2]|].
+  destruct (find_ci keys (lower_ascii (local_name (c :: t')))) as [k|] eqn:E3.
+  - exists k. split; [reflexivity|]. unfold find_ci in E3. apply find_some in E3 as [H _]. exact H.
+  - exists T_STRING. split; [reflexivity|exact Hin].
+Qed.
+
+Lemma valid_no_keyerror prim keys t v :
+  mem_str T_STRING keys = true -> valid prim keys t v = ok \/ valid prim keys t v = Err NOT_VALID.
+Proof.
+  intros Hs. destruct (resolve_total keys t Hs) as [k [Hk _]]. unfold valid. rewrite Hk.
+  destruct (prim k v); [left|right]; reflexivity.
+Qed.
+
 Section V.
   Variable prim : str -> str -> bool.
   Variable keys : list str.
@@ -38,17 +59,22 @@ Section V.
      enumeration, or refused by the primitive validator its (resolvable) type name selects *)
   Definition value_bad (v : str) (vt : vtype) : Prop :=
     v_maxlen vt = None /\
-    ((str_eqb (v_base vt) T_STRING = true /\ exists en, v_enum vt = Some en /\ mem_str v en = false) \/
-     (str_eqb (v_base vt) T_STRING = true /\ v_enum vt = None /\ prim T_STRING v = false) \/
-     (str_eqb (v_base vt) T_STRING = false /\ str_eqb (v_base vt) T_LIST = false /\
+    ((exists en, v_enum vt = Some en /\ mem_str v en = false) \/
+     (v_enum vt = None /\ str_eqb (v_base vt) T_STRING = true /\ prim T_STRING v = false) \/
+     (v_enum vt = None /\ str_eqb (v_base vt) T_STRING = false /\ str_eqb (v_base vt) T_LIST = true /\
+      exists mt k part, v_member vt = Some mt /\ resolve keys mt = Some k /\
+                        In part (split_on 44 v) /\ prim k (strip part) = false) \/
+     (v_enum vt = None /\ str_eqb (v_base vt) T_STRING = false /\ str_eqb (v_base vt) T_LIST = false /\
       exists k, resolve keys (v_base vt) = Some k /\ prim k v = false)).
 
+  (* the declared type of an attribute: a type name (None / empty = no type declared,
+     validated as string) or a class carrying a c_value_type *)
   Definition typed_bad (a : attr_row) (v : str) : Prop :=
     match a_type a with
     | TN typ => exists k, resolve keys typ = Some k /\ prim k v = false
+    | TNone => exists k, resolve keys [] = Some k /\ prim k v = false
     | TC cls => exists rt, find_row S cls = Some rt /\
                   value_bad v (match k_vtype rt with Some vt => vt | None => DEFAULT_SPEC end)
-    | TNone => False
     end.
 
   Definition attr_bad (attrs : list (N * str)) (a : attr_row) : Prop :=
@@ -70,14 +96,19 @@ Section V.
     (exists a, In a (k_attrs r) /\ attr_bad attrs a) \/ text_bad r text \/
     (exists ch, In ch (k_children r) /\ card_bad r (List.length (kids_of (c_member ch) K)) ch).
 
-  Lemma value_bad_err v vt : value_bad v vt -> validate_value_type v vt = Err NOT_VALID.
+  Lemma value_bad_err v vt : value_bad v vt -> exists e, validate_value_type v vt = Err e.
   Proof.
     intros [Hm H]. unfold Validate.validate_value_type. rewrite Hm.
-    destruct H as [[Hb [en [He Hn]]]|[[Hb [He Hp]]|[Hb [Hl [k [Hr Hp]]]]]].
-    - rewrite Hb, He, Hn. reflexivity.
-    - rewrite Hb, He, Hp. reflexivity.
-    - rewrite Hb, Hl. unfold Validate.valid. rewrite Hr, Hp. reflexivity.
+    destruct H as [[en [He Hn]]|[[He [Hb Hp]]|[[He [Hb [Hl (mt & k & part & Hmt & Hr & Hin & Hp)]]]|[He [Hb [Hl [k [Hr Hp]]]]]]]].
+    - rewrite He, Hn. eexists; reflexivity.
+    - rewrite He, Hb, Hp. eexists; reflexivity.
+    - rewrite He, Hb, Hl, Hmt. apply (first_err_err _ NOT_VALID).
+      apply in_map_iff. exists part. split; [|exact Hin]. unfold Validate.valid. rewrite Hr, Hp. reflexivity.
+    - rewrite He, Hb, Hl. unfold Validate.valid. rewrite Hr, Hp. eexists; reflexivity.
   Qed.
+
+  Lemma attr_wrap_err e : exists e', attr_wrap (Err e) = Err e'.
+  Proof. unfold attr_wrap. destruct (_ || _); eexists; reflexivity. Qed.
 
   Lemma attr_bad_err attrs a : attr_bad attrs a -> exists e, attr_check attrs a = Err e.
   Proof.
@@ -85,12 +116,12 @@ Section V.
     - rewrite Hr, Ht. cbn. eexists; reflexivity.
     - rewrite Hv. cbn [truthy negb]. rewrite andb_false_r.
       unfold typed_bad in Hb. destruct (a_type a) as [typ|cls|].
-      + destruct Hb as [k [Hr Hp]]. unfold Validate.valid. rewrite Hr, Hp. eexists; reflexivity.
-      + destruct Hb as [rt [Hrt Hvb]]. rewrite Hrt. rewrite (value_bad_err _ _ Hvb). eexists; reflexivity.
-      + destruct Hb.
+      + destruct Hb as [k [Hr Hp]]. unfold Validate.valid. rewrite Hr, Hp. apply attr_wrap_err.
+      + destruct Hb as [rt [Hrt Hvb]]. rewrite Hrt. destruct (value_bad_err _ _ Hvb) as [e He]. rewrite He. apply attr_wrap_err.
+      + destruct Hb as [k [Hr Hp]]. unfold Validate.valid. rewrite Hr, Hp. apply attr_wrap_err.
   Qed.
 
-  Lemma text_bad_err r text : text_bad r text -> text_check r text = Err NOT_VALID.
+  Lemma text_bad_err r text : text_bad r text -> exists e, text_check r text = Err e.
   Proof.
     intros (vt & c0 & t' & Hv & Ht & Hb). unfold Validate.text_check. rewrite Hv, Ht. apply value_bad_err; exact Hb.
   Qed.
@@ -121,7 +152,7 @@ Section V.
     intros [[a [Ha Hb]]|[Ht|[ch [Hch Hc]]]] Hlen.
     - destruct (attr_bad_err attrs a Hb) as [e He].
       eapply vi_node_in; [right; apply in_or_app; left; apply in_map; exact Ha|exact He].
-    - eapply vi_node_in; [left; reflexivity|apply text_bad_err; exact Ht].
+    - destruct (text_bad_err r text Ht) as [e He]. eapply vi_node_in; [left; reflexivity|exact He].
     - rewrite <- Hlen in Hc. destruct (card_bad_err r vkids ch Hc) as [e He].
       eapply vi_node_in; [right; apply in_or_app; right; apply in_map; exact Hch|exact He].
   Qed.
@@ -236,20 +267,20 @@ Section V.
   Definition value_good (v : str) (vt : vtype) : Prop :=
     (exists n, v_maxlen vt = Some n) \/
     (v_maxlen vt = None /\
-     ((str_eqb (v_base vt) T_STRING = true /\ exists en, v_enum vt = Some en /\ mem_str v en = true) \/
-      (str_eqb (v_base vt) T_STRING = true /\ v_enum vt = None /\ prim T_STRING v = true) \/
-      (str_eqb (v_base vt) T_STRING = false /\ str_eqb (v_base vt) T_LIST = true /\
+     ((exists en, v_enum vt = Some en /\ mem_str v en = true) \/
+      (v_enum vt = None /\ str_eqb (v_base vt) T_STRING = true /\ prim T_STRING v = true) \/
+      (v_enum vt = None /\ str_eqb (v_base vt) T_STRING = false /\ str_eqb (v_base vt) T_LIST = true /\
        exists mt, v_member vt = Some mt /\
          forall part, In part (split_on 44 v) -> exists k, resolve keys mt = Some k /\ prim k (strip part) = true) \/
-      (str_eqb (v_base vt) T_STRING = false /\ str_eqb (v_base vt) T_LIST = false /\
+      (v_enum vt = None /\ str_eqb (v_base vt) T_STRING = false /\ str_eqb (v_base vt) T_LIST = false /\
        exists k, resolve keys (v_base vt) = Some k /\ prim k v = true))).
 
   Definition typed_good (a : attr_row) (v : str) : Prop :=
     match a_type a with
     | TN typ => exists k, resolve keys typ = Some k /\ prim k v = true
+    | TNone => exists k, resolve keys [] = Some k /\ prim k v = true
     | TC cls => exists rt, find_row S cls = Some rt /\
                   value_good v (match k_vtype rt with Some vt => vt | None => DEFAULT_SPEC end)
-    | TNone => False
     end.
 
   Definition attr_good (attrs : list (N * str)) (a : attr_row) : Prop :=
@@ -267,8 +298,6 @@ Section V.
     | None => True
     end.
 
-  Definition oks (K : list (N * inst)) : list (N * result unit) := map (fun p => let '(m, _) := p in (m, ok)) K.
-
   Inductive good : inst -> Prop :=
   | good_I c a t K xa xe r :
       find_row S c = Some r ->
@@ -282,12 +311,12 @@ Section V.
   Lemma value_good_ok v vt : value_good v vt -> validate_value_type v vt = ok.
   Proof.
     unfold Validate.validate_value_type. intros [[n Hn]|[Hm H]]; [rewrite Hn; reflexivity|]. rewrite Hm.
-    destruct H as [[Hb [en [He Hi]]]|[[Hb [He Hp]]|[[Hb [Hl [mt [Hmt Hall]]]]|[Hb [Hl [k [Hr Hp]]]]]]].
-    - rewrite Hb, He, Hi. reflexivity.
-    - rewrite Hb, He, Hp. reflexivity.
-    - rewrite Hb, Hl, Hmt. apply first_err_ok. intros x Hx. apply in_map_iff in Hx as [part [Hx Hp]]. subst x.
+    destruct H as [[en [He Hi]]|[[He [Hb Hp]]|[[He [Hb [Hl [mt [Hmt Hall]]]]]|[He [Hb [Hl [k [Hr Hp]]]]]]]].
+    - rewrite He, Hi. reflexivity.
+    - rewrite He, Hb, Hp. reflexivity.
+    - rewrite He, Hb, Hl, Hmt. apply first_err_ok. intros x Hx. apply in_map_iff in Hx as [part [Hx Hp]]. subst x.
       destruct (Hall part Hp) as [k [Hr Hk]]. unfold Validate.valid. rewrite Hr, Hk. reflexivity.
-    - rewrite Hb, Hl. unfold Validate.valid. rewrite Hr, Hp. reflexivity.
+    - rewrite He, Hb, Hl. unfold Validate.valid. rewrite Hr, Hp. reflexivity.
   Qed.
 
   Lemma attr_good_ok attrs a : attr_good attrs a -> attr_check attrs a = ok.
@@ -299,7 +328,7 @@ Section V.
       destruct (a_type a) as [typ|cls|].
       + destruct Hty as [k [Hr Hp]]. unfold Validate.valid. rewrite Hr, Hp. reflexivity.
       + destruct Hty as [rt [Hrt Hg]]. rewrite Hrt, (value_good_ok _ _ Hg). reflexivity.
-      + destruct Hty.
+      + destruct Hty as [k [Hr Hp]]. unfold Validate.valid. rewrite Hr, Hp. reflexivity.
     - destruct (a_req a); [specialize (Hreq eq_refl); discriminate|reflexivity].
   Qed.
 
@@ -342,5 +371,168 @@ Section V.
     - exact Hvi.
     - reflexivity.
     - exfalso. apply (Hpre e). reflexivity.
+  Qed.
+  (* ---------------------------------------------------------- the executable predicates are sound *)
+  Notation value_badb := (value_badb prim keys).
+  Notation value_goodb := (value_goodb prim keys).
+  Notation typed_badb := (typed_badb prim keys S).
+  Notation typed_goodb := (typed_goodb prim keys S).
+  Notation attr_badb := (attr_badb prim keys S).
+  Notation attr_goodb := (attr_goodb prim keys S).
+  Notation text_badb := (text_badb prim keys).
+  Notation text_goodb := (text_goodb prim keys).
+  Notation node_violationb := (node_violationb prim keys S).
+  Notation has_violation := (has_violation prim keys S).
+  Notation goodb := (goodb prim keys S NIL M_SUBJECT M_ATTRST M_STATEMENT M_AUTHNST M_AUTHZST M_ONETIME M_PROXY M_DECL M_DECLREF M_ADDRESS M_DNS).
+
+  Lemma value_badb_sound v vt : value_badb v vt = true -> value_bad v vt.
+  Proof.
+    unfold Validate.value_badb, value_bad. destruct (v_maxlen vt) as [n|]; [discriminate|]. intros H. split; [reflexivity|].
+    destruct (v_enum vt) as [en|].
+    { left. exists en. split; [reflexivity|]. apply negb_true_iff; exact H. }
+    right. destruct (str_eqb (v_base vt) T_STRING) eqn:Eb.
+    { left. repeat split. apply negb_true_iff; exact H. }
+    right. destruct (str_eqb (v_base vt) T_LIST) eqn:El.
+    - left. repeat split. destruct (v_member vt) as [mt|]; [|discriminate].
+      destruct (resolve keys mt) as [k|] eqn:Er; [|discriminate].
+      apply existsb_exists in H as [part [Hin Hp]]. exists mt, k, part. repeat split; try assumption.
+      apply negb_true_iff; exact Hp.
+    - right. repeat split. destruct (resolve keys (v_base vt)) as [k|]; [|discriminate].
+      exists k. split; [reflexivity|apply negb_true_iff; exact H].
+  Qed.
+
+  Lemma value_goodb_sound v vt : value_goodb v vt = true -> value_good v vt.
+  Proof.
+    unfold Validate.value_goodb, value_good. destruct (v_maxlen vt) as [n|]; [intros _; left; exists n; reflexivity|].
+    intros H. right. split; [reflexivity|].
+    destruct (v_enum vt) as [en|].
+    { left. exists en. split; [reflexivity|exact H]. }
+    right. destruct (str_eqb (v_base vt) T_STRING) eqn:Eb.
+    { left. repeat split. exact H. }
+    right. destruct (str_eqb (v_base vt) T_LIST) eqn:El.
+    - left. repeat split. destruct (v_member vt) as [mt|]; [|discriminate].
+      destruct (resolve keys mt) as [k|] eqn:Er; [|discriminate].
+      exists mt. split; [reflexivity|]. intros part Hin. exists k. split; [exact Er|].
+      rewrite forallb_forall in H. apply H; exact Hin.
+    - right. repeat split. destruct (resolve keys (v_base vt)) as [k|]; [|discriminate].
+      exists k. split; [reflexivity|exact H].
+  Qed.
+
+  Lemma typed_badb_sound a v : typed_badb a v = true -> typed_bad a v.
+  Proof.
+    unfold Validate.typed_badb, Validate.attr_vtype, Validate.attr_tname, typed_bad.
+    destruct (a_type a) as [typ|cls|].
+    - destruct (resolve keys typ) as [k|]; [|discriminate]. intros H. exists k. split; [reflexivity|apply negb_true_iff; exact H].
+    - destruct (find_row S cls) as [rt|]; [|discriminate]. intros H. exists rt. split; [reflexivity|]. apply value_badb_sound; exact H.
+    - destruct (resolve keys []) as [k|]; [|discriminate]. intros H. exists k. split; [reflexivity|apply negb_true_iff; exact H].
+  Qed.
+
+  Lemma typed_goodb_sound a v : typed_goodb a v = true -> typed_good a v.
+  Proof.
+    unfold Validate.typed_goodb, Validate.attr_vtype, Validate.attr_tname, typed_good.
+    destruct (a_type a) as [typ|cls|].
+    - destruct (resolve keys typ) as [k|]; [|discriminate]. intros H. exists k. split; [reflexivity|exact H].
+    - destruct (find_row S cls) as [rt|]; [|discriminate]. intros H. exists rt. split; [reflexivity|]. apply value_goodb_sound; exact H.
+    - destruct (resolve keys []) as [k|]; [|discriminate]. intros H. exists k. split; [reflexivity|exact H].
+  Qed.
+
+  Lemma attr_badb_sound attrs a : attr_badb attrs a = true -> attr_bad attrs a.
+  Proof.
+    unfold Validate.attr_badb, attr_bad. intros H. apply orb_true_iff in H as [H|H].
+    - left. apply andb_true_iff in H as [H1 H2]. split; [exact H1|apply negb_true_iff; exact H2].
+    - right. destruct (alookup (a_member a) attrs) as [[|c0 v']|]; try discriminate.
+      exists c0, v'. split; [reflexivity|apply typed_badb_sound; exact H].
+  Qed.
+
+  Lemma attr_goodb_sound attrs a : attr_goodb attrs a = true -> attr_good attrs a.
+  Proof.
+    unfold Validate.attr_goodb, attr_good. intros H. apply andb_true_iff in H as [H1 H2]. split.
+    - intros Hr. rewrite Hr in H1. exact H1.
+    - intros c0 v' Hv. rewrite Hv in H2. apply typed_goodb_sound; exact H2.
+  Qed.
+
+  Lemma text_badb_sound r t : text_badb r t = true -> text_bad r t.
+  Proof.
+    unfold Validate.text_badb, text_bad. destruct (k_vtype r) as [vt|]; [|discriminate].
+    destruct t as [[|c0 t']|]; try discriminate. intros H. exists vt, c0, t'. split; [reflexivity|]. split; [reflexivity|]. apply value_badb_sound; exact H.
+  Qed.
+
+  Lemma text_goodb_sound r t : text_goodb r t = true -> text_good r t.
+  Proof.
+    unfold Validate.text_goodb, text_good. intros H vt c0 t' Hv Ht. rewrite Hv, Ht in H. apply value_goodb_sound; exact H.
+  Qed.
+
+  Lemma card_badb_sound r n ch : card_badb r n ch = true -> card_bad r n ch.
+  Proof.
+    unfold Validate.card_badb, card_bad. destruct (alookup (c_member ch) (k_card r)) as [[mn mx]|]; [|discriminate].
+    destruct n as [|n'].
+    - intros H. left. split; [reflexivity|exact H].
+    - intros H. right. split; [discriminate|]. apply orb_true_iff in H as [H|H].
+      + left. destruct mn as [m|]; [|discriminate]. exists m. split; [reflexivity|apply Z.ltb_lt; exact H].
+      + right. destruct mx as [m|]; [|discriminate]. exists m. split; [reflexivity|apply Z.ltb_lt; exact H].
+  Qed.
+
+  Lemma card_badb_false_good r n ch : card_badb r n ch = false -> card_good r n ch.
+  Proof.
+    unfold Validate.card_badb, card_good. destruct (alookup (c_member ch) (k_card r)) as [[mn mx]|]; [|intros _; exact Logic.I].
+    destruct n as [|n'].
+    - intros H. split; [intros _; exact H|intros Hn; exfalso; apply Hn; reflexivity].
+    - intros H. apply orb_false_iff in H as [H1 H2]. split; [discriminate|]. intros _. split.
+      + intros m Hm. subst mn. apply Z.ltb_ge; exact H1.
+      + intros m Hm. subst mx. apply Z.ltb_ge; exact H2.
+  Qed.
+
+  Lemma node_violationb_sound r a t K : node_violationb r a t K = true -> node_violation r a t K.
+  Proof.
+    unfold Validate.node_violationb, node_violation. intros H.
+    apply orb_true_iff in H as [H|H]; [apply orb_true_iff in H as [H|H]|].
+    - left. apply existsb_exists in H as [x [Hin Hx]]. exists x. split; [exact Hin|apply attr_badb_sound; exact Hx].
+    - right. left. apply text_badb_sound; exact H.
+    - right. right. apply existsb_exists in H as [ch [Hin Hc]]. exists ch. split; [exact Hin|apply card_badb_sound; exact Hc].
+  Qed.
+
+  Theorem has_violation_sound i : has_violation i = true -> exists j, reach i j /\ violated j.
+  Proof.
+    induction i as [|c a t K xa xe IH] using inst_ind'; [discriminate|].
+    cbn [Validate.has_violation]. destruct (find_row S c) as [r|] eqn:Hrow; [|discriminate].
+    intros H. apply orb_true_iff in H as [H|H].
+    - exists (I c a t K xa xe). split; [apply reach_refl|]. exists r. split; [exact Hrow|apply node_violationb_sound; exact H].
+    - apply existsb_exists in H as [[m k] [Hin Hk]]. apply andb_true_iff in Hk as [Hm Hk].
+      rewrite Forall_forall in IH. destruct (IH (m, k) Hin Hk) as [j [Hr Hv]].
+      exists j. split; [|exact Hv]. eapply reach_kid; [exact Hrow|apply memN_In; exact Hm|exact Hin|exact Hr].
+  Qed.
+
+  Theorem goodb_sound i : goodb i = true -> good i.
+  Proof.
+    induction i as [|c a t K xa xe IH] using inst_ind'; [discriminate|].
+    cbn [Validate.goodb]. destruct (find_row S c) as [r|] eqn:Hrow; [|discriminate].
+    intros H. apply andb_true_iff in H as [H Hk]. apply andb_true_iff in H as [H Hp].
+    apply andb_true_iff in H as [H Hc]. apply andb_true_iff in H as [Ha Ht].
+    rewrite forallb_forall in Ha, Hc, Hk. rewrite Forall_forall in IH.
+    apply (good_I c a t K xa xe r Hrow).
+    - intros x Hx. apply attr_goodb_sound, Ha, Hx.
+    - apply text_goodb_sound; exact Ht.
+    - intros ch Hch. apply card_badb_false_good. apply negb_true_iff. apply Hc; exact Hch.
+    - intros e He. rewrite He in Hp. discriminate.
+    - intros m k Hin. apply (IH (m, k) Hin). exact (Hk (m, k) Hin).
+  Qed.
+  (* ---------------------------------------------------------- summaries used by Props/C13.v *)
+  Theorem rejects_both i j : plain_av -> reach i j -> violated j ->
+    (exists e, valid_instance i = Err e) /\ (exists e, verify i = Err e).
+  Proof. intros Hpl Hr Hv. split; [eapply rejects_valid_instance|eapply rejects_verify]; eassumption. Qed.
+
+  Theorem rejects_decided i : plain_av -> has_violation i = true ->
+    (exists e, valid_instance i = Err e) /\ (exists e, verify i = Err e).
+  Proof. intros Hpl H. destruct (has_violation_sound i H) as [j [Hr Hv]]. eapply rejects_both; eassumption. Qed.
+
+  Theorem accepts_decided i : goodb i = true -> verify i = ok /\ valid_instance i = ok.
+  Proof. intros H. apply accepts, goodb_sound, H. Qed.
+
+  (* the two sides of the statement never overlap *)
+  Theorem spec_exclusive i : plain_av -> has_violation i = true -> goodb i = false.
+  Proof.
+    intros Hpl Hv. destruct (goodb i) eqn:Hg; [|reflexivity].
+    destruct (rejects_decided i Hpl Hv) as [[e He] _]. destruct (accepts_decided i Hg) as [_ Ho].
+    rewrite Ho in He. discriminate.
   Qed.
 End V.
